@@ -956,5 +956,15 @@ def selftest():
     p5 = os.path.join(vlib.BUILD, "tmp", "selftest-printer-corrupt.ndjson"); open(p5, "w").write("\n".join(json.dumps(e) for e in cor) + "\n")
     acc5, _ = validate_trace("Trace_Printer", p5, "selftest-printer-corrupt", **kp)
     print("lost printed line rejected:", not acc5); ok &= not acc5
+    tp = vh_trace("sem", 300, "selftest-sem", seed_=7, env_extra={"TZ": "UTC"})
+    ks = dict(constants={"Dev": set()}, invariants=["TraceUnfinished"], post="TraceRejectedAt", extra={"constraint": "TrackProgress"})
+    acc, _ = validate_trace("Trace_Sem", tp, "selftest-sem-ok", **ks)
+    print("statement trace accepted:", acc); ok &= acc
+    ev = [json.loads(l) for l in open(tp)]
+    i = next(j for j, e in enumerate(ev) if not e["open"] and e["out"]["st"] == "ok" and len(e["out"]["recs"]) >= 2 and e["q"]["kind"] == "select" and not e["q"]["distinct"])
+    cor = json.loads(json.dumps(ev)); cor[i]["out"]["recs"] = cor[i]["out"]["recs"][1:]       # the code "lost" the first output row of a statement
+    p6 = os.path.join(vlib.BUILD, "tmp", "selftest-sem-corrupt.ndjson"); open(p6, "w").write("\n".join(json.dumps(e) for e in cor) + "\n")
+    acc6, _ = validate_trace("Trace_Sem", p6, "selftest-sem-corrupt", **ks)
+    print("lost output row rejected:", not acc6); ok &= not acc6
     print("SELFTEST", "ok" if ok else "FAILED")
     return 0 if ok else 1
